@@ -195,6 +195,77 @@ func c06Cancel(stepped bool, b Bounds) *Scenario {
 	}
 }
 
+// c06CancelRace: N slots all busy with gated calls, one more call W waiting for a slot; then the
+// release of a running call races with CancelRequest(W); afterwards a fresh call must still be
+// served (a slot lost in the race would leave it waiting for ever).
+func c06CancelRace(n int, b Bounds) *Scenario {
+	var tokens []string
+	for i := 0; i < n; i++ {
+		tokens = append(tokens, "g")
+	}
+	tokens = append(tokens, "c", "c") // W, then the probe P
+	return &Scenario{
+		Name:   fmt.Sprintf("cancel-racing-release N=%d", n),
+		Params: map[string]any{"limit": n},
+		Bounds: b,
+		New: func() *Instance {
+			h := &seqHarness{msgs: buildSeq(tokens), gates: NewGates()}
+			w, pr := h.msgs[n].Members[0], h.msgs[n+1].Members[0]
+			body := func() {
+				lib, peer, _ := NewPipe(PipeOpts{Name: "srv", CloseUnblocksRecv: true})
+				srv := jrpc2.NewServer(anyAssigner{h.handler()}, &jrpc2.ServerOptions{Concurrency: n})
+				srv.Start(lib)
+				vs.GoNamed("controller", func() {
+					for i := 0; i <= n; i++ {
+						peer.Send([]byte(h.msgs[i].JSON))
+					}
+					vs.AwaitQuiescence()
+					vs.Note("quiet", "W-waiting")
+					var j Join
+					j.Go("release", func() { h.gates.Open(h.msgs[0].Members[0].Method) })
+					j.Go("cancel", func() { srv.CancelRequest(w.ID) })
+					j.Wait()
+					vs.AwaitQuiescence()
+					vs.Note("quiet", "after-race")
+					for i := 1; i < n; i++ {
+						h.gates.Open(h.msgs[i].Members[0].Method)
+					}
+					peer.Send([]byte(h.msgs[n+1].JSON))
+					vs.AwaitQuiescence()
+					vs.Note("quiet", "probe")
+					peer.Close()
+				})
+				srv.WaitStatus()
+			}
+			check := func(x *vs.Exec) []Viol {
+				v := genericRules(x, nil)
+				if x.Outcome != "ok" {
+					return v
+				}
+				Hit("C06.R2")
+				if findEv(x, 0, "h_exit", pr.Method) < 0 {
+					v = append(v, Viol{"C06.R2", "after a cancellation raced with a release, a later call was never started although no handler is executing: an execution slot was lost"})
+				}
+				answered := false
+				for _, o := range outEvents(x, "srv") {
+					ms, _, _ := parseRecord([]byte(o.Raw))
+					for _, m := range ms {
+						if m.ID() == w.ID {
+							answered = true
+						}
+					}
+				}
+				Hit("C06.R3")
+				if !answered {
+					v = append(v, Viol{"C06.R3", "the cancelled waiting call was never answered"})
+				}
+				return v
+			}
+			return &Instance{Body: body, Check: check}
+		},
+	}
+}
+
 func c06Scenarios(tier string) []*Scenario {
 	var out []*Scenario
 	maxN, b := 2, Bounds{2, -1, 0}
@@ -220,6 +291,11 @@ func c06Scenarios(tier string) []*Scenario {
 		out = append(out, c06Gated(n, 2, false, true, n, Bounds{b.P - 1, -1, 0}))
 	}
 	out = append(out, c06Cancel(true, b), c06Cancel(false, b))
+	if tier == "quick" {
+		out = append(out, c06CancelRace(1, Bounds{2, 2, 0}), c06CancelRace(2, Bounds{1, 2, 0}))
+	} else {
+		out = append(out, c06CancelRace(1, Bounds{3, 2, 0}), c06CancelRace(2, Bounds{2, 2, 0}))
+	}
 	// option mapping: Concurrency < 1 means runtime.NumCPU(); checked on the default schedule
 	ncpu := runtime.NumCPU()
 	if ncpu <= 32 {
